@@ -112,6 +112,7 @@ func init() {
 			ruleSIDInit(c, "C14.SID.INIT", ro)
 			ruleSIDOwner(c, "C14.SID.OWNER")
 			ruleSIDDuidAddr(c, "C14.SID.INIT")
+			c.R.Floor("C14.SID.INIT", 5)
 			c.R.Floor("C14.SID.OWNER", 2)
 			c.R.Floor("C14.SID.V6-MATRIX", 2)
 			c.R.Floor("C14.SID.V4-DROP", 1)
@@ -131,6 +132,7 @@ func init() {
 			ruleParseOrder(c, "C17.CHAIN.PARSE-ORDER") // ... split into arguments exactly as written (strings.Fields of the item's value)
 			ruleChainLoad(c, "C17.CHAIN.LOAD")         // the configured values reach the plugin: every setup is called with its own item's arguments
 			ruleOptions(c, "C17.")
+			c.R.Floor("C17.SETUP.FAMILY", 8)
 			c.R.Floor("C17.CFG.ARGS-RO", 1)
 			c.R.Floor("C17.CHAIN.PARSE-ORDER", 1)
 			c.R.Floor("C17.OPT.EMPTY-LIST", 4)
